@@ -9,4 +9,5 @@ ALL = [
     ('drv_sched', SCHED_SOURCES, {}),
     ('drv_live', LIVE_SOURCES, {}),
     ('drv_mt', MT_SOURCES, {}),
+    ('drv_sd', ['drv_sd.cc'], {}),
 ]
